@@ -29,7 +29,7 @@ pub static DEF: PropDef = PropDef {
         "while some task is between take_hook and set_hook the process hook is std's default by construction: no sentinel / message-content expectation is attached to panics fired in that window",
         "PANIC_CATCHER_HOOK_SET is reset between runs through the guarded test-only hook",
     ],
-    required_probes: &["c19.panic_caught", "c19.panic_escaped", "c19.nested_noncatching_outer", "c19.install", "c19.query", "c19.epilogue", "c19.install_lock_contended", "c19.transparent", "c19.static_payload", "c19.nonstring_payload", "c19.preempted_inside_previous_hook", "c19.catch_during_unwind"],
+    required_probes: &["c19.panic_caught", "c19.panic_escaped", "c19.nested_noncatching_outer", "c19.install", "c19.query", "c19.epilogue", "c19.install_lock_contended", "c19.transparent", "c19.static_payload", "c19.nonstring_payload", "c19.preempted_inside_previous_hook", "c19.catch_during_unwind", "c19.caught_burst"],
     extra: None,
 };
 
@@ -123,6 +123,8 @@ enum Op {
     /// happens during unwinding, between the panic and the moment the outer catch_panic reads the recorded text
     CatchOwningGuard(Vec<Op>),
     Panic,
+    /// n times `catch{panic}` in a row (counters and stored texts must not wear out)
+    CaughtBurst(usize),
     /// panic with a `&'static str` payload (the hook reads `&str` and `String` payloads through different downcasts)
     PanicStatic,
     /// panic with a payload that is neither `&str` nor `String`: there is no message to demand, but the text
@@ -141,6 +143,7 @@ fn render(ops: &[Op]) -> String {
             Op::Catch(b) => format!("catch{{{}}}", render(b)),
             Op::CatchOwningGuard(b) => format!("catch+dropguard{{{}}}", render(b)),
             Op::Panic => "panic".to_string(),
+            Op::CaughtBurst(n) => format!("{n} x catch{{panic}}"),
             Op::PanicStatic => "panic-static".to_string(),
             Op::PanicAny => "panic-any".to_string(),
         })
@@ -296,6 +299,16 @@ fn exec_ops(ops: &[Op], m: &mut TaskModel) {
                     }
                 }
             }
+            Op::CaughtBurst(n) => {
+                let body = vec![Op::Panic];
+                for _ in 0..*n {
+                    exec_ops(&[Op::Catch(body.clone())], m);
+                    if kernel::failed() {
+                        return;
+                    }
+                }
+                kernel::count("c19.caught_burst");
+            }
             Op::Catch(body) | Op::CatchOwningGuard(body) => {
                 let with_guard = matches!(op, Op::CatchOwningGuard(_));
                 let catching = m.enabled;
@@ -374,9 +387,10 @@ fn exec_ops(ops: &[Op], m: &mut TaskModel) {
                 } else if is_static && m.counter <= 4 {
                     static_msg.to_string()
                 } else if m.counter % 4 == 3 {
-                    format!("p'{}-{}\nline2-{}", m.run, m.task, m.counter)
+                    // (every message ends in ';' so that none is a prefix of another: p1-0-1; vs p1-0-10;)
+                    format!("p'{}-{}\nline2-{};", m.run, m.task, m.counter)
                 } else {
-                    format!("p{}-{}-{}", m.run, m.task, m.counter)
+                    format!("p{}-{}-{};", m.run, m.task, m.counter)
                 };
                 let is_static = is_static && m.counter <= 4;
                 let dc = depth_catching(m);
@@ -544,6 +558,11 @@ fn run(ctx: &RunCtx) -> Result<(), Violation> {
                         budget -= 2;
                     }
                     ops.extend(gen_ops(&mut budget, 0));
+                    // (rarely) a long burst of caught panics inside an otherwise ordinary program
+                    if chance(1, 150, "prog.burst") {
+                        let at = choose(ops.len() + 1, "prog.burst_at");
+                        ops.insert(at, Op::CaughtBurst([33usize, 70, 260][choose(3, "prog.burst_n")]));
+                    }
                     ops
                 })
                 .collect()
